@@ -1,4 +1,5 @@
 (* C13 — property theorems only: each closed by [exact] of a lemma proved elsewhere. *)
+From Helm Require Props.Decisions. (* data conditions of the release operations tied to /repo by the translator: notes/DEC.md *)
 From Coq Require Import List String Bool ZArith.
 From Helm Require Import Values.Tree Values.Merge Values.Coalesce Values.Reuse Values.ReuseProofs.
 Import ListNotations.
